@@ -1,7 +1,7 @@
 (* Props/C06.v -- statements claimed for C06 (gradient / divergence), about Model/DiffGeo.v over R. *)
 From Coq Require Import List Arith Reals.
 From LaPyV Require Import Base.Scalar Base.Vec3 Base.ListAux Base.Sparse Model.TetMesh Model.TriaAdj Model.Fem Model.TriaGeom
-  Model.DiffGeo Proofs.SparseP Proofs.FemTriaP Proofs.FemTetP Proofs.DiffGeoP Proofs.TetDivP.
+  Model.DiffGeo Proofs.SparseP Proofs.FemTriaP Proofs.FemTetP Proofs.DiffGeoP Proofs.TetDivP Proofs.FemInvarP Proofs.FemTetInvarP Proofs.GradInvarP.
 Import ListNotations.
 Open Scope R_scope.
 
@@ -87,3 +87,15 @@ Theorem C06_tet_div_grad_is_minus_stiffness : forall v ts (f g : nat -> R),
   = - bil f (fem_tet_A Rops v ts) g.
 Proof. exact tet_div_grad_is_minus_A. Qed.
 Print Assumptions C06_tet_div_grad_is_minus_stiffness.
+
+(* ---- the gradient of an element does not depend on how its indices are listed: any of the six orders of a non-degenerate triangle
+   (either winding) and any of the 24 orders of a non-degenerate tetrahedron (either orientation) give the same vector *)
+Theorem C06_tria_gradient_independent_of_index_order : forall v f t t', tri_guard_off v t -> variant t t' ->
+  tri_guard_off v t' /\ tria_grad1 Rops v f t' = tria_grad1 Rops v f t.
+Proof. exact tria_gradient_invariant_under_index_order. Qed.
+Print Assumptions C06_tria_gradient_independent_of_index_order.
+
+Theorem C06_tet_gradient_independent_of_index_order : forall v f t t', tet_guard_off v t -> tvariant t t' ->
+  tet_guard_off v t' /\ tet_grad1 Rops v f t' = tet_grad1 Rops v f t.
+Proof. exact tet_gradient_invariant_under_index_order. Qed.
+Print Assumptions C06_tet_gradient_independent_of_index_order.
